@@ -9,7 +9,10 @@ rows = []
 for f in sorted(glob.glob("/tmp/seedrun/*.json")):
     r = json.load(open(f))
     name = os.path.basename(f)[:-5]
-    pid, k = name.split("-patch")
+    if name == "summary":
+        continue
+    m0 = re.match(r"(C\d\d)-(\d)-patch$", name) or re.match(r"(C\d\d)-patch(\d)$", name)
+    pid, k = m0.group(1), m0.group(2)
     own = r["checks"].get(pid, {})
     rp = own.get("replay") or {}
     m = re.search(r"(\d+) failing \((\d+) in known classes\), tie broken on (\d+)", own.get("summary", ""))
